@@ -110,6 +110,44 @@ def run(ctx):
         bad = cfg.must_follow([n], lambda m: m.kind == "stmt" and norm(m.ast) == "meta_found = True")
         r.check("R15.2", not bad, "rewrite-sets-found@%d" % rew.index(n), "%s:%d" % (REL, n.lineno),
                 "a rewritten declaration is not recorded as found: a second one would be injected")
+    # "found" means a declaration of the requested encoding is in the output: every path to a `meta_found = True` store has
+    # written the encoding into a token / injected one, or had found one before
+    founds = [n for n in cfg.stmt_nodes() if n.kind == "stmt" and norm(n.ast) == "meta_found = True"]
+    if len(founds) < 3:
+        r.idiom("R15.2", False, "found-means-declared", f.where, "expected >= 3 `meta_found = True` stores, found %d" % len(founds))
+
+    def declares(n, lab):
+        if n.kind == "stmt" and isinstance(n.ast, ast.Assign) and norm(n.ast.targets[0]).startswith("token['data'][") and "self.encoding" in norm(n.ast.value):
+            return True
+        if yields_meta(n):
+            return True
+        if n.kind == "test" and norm(n.ast) == "meta_found" and lab is True:
+            return True
+        return False
+    for fn_ in founds:
+        dom = cfg.dominated_by(fn_, declares)
+        r.check("R15.2", dom, "found-means-declared@%d" % founds.index(fn_), "%s:%d" % (REL, fn_.lineno),
+                "a declaration is recorded as found on a path on which nothing was rewritten or injected (for example an "
+                "http-equiv=content-type meta without a content attribute): the output then carries no declaration of the encoding",
+                detail={"line": fn_.lineno})
+    # the pragma flag describes the current meta token: it is reset for every token before it is read
+    flag_sets = [n for n in cfg.stmt_nodes() if n.kind == "stmt" and isinstance(n.ast, ast.Assign) and isinstance(n.ast.targets[0], ast.Name)
+                 and isinstance(n.ast.value, ast.Constant) and n.ast.value.value is True and
+                 cfg.dominated_by(n, lambda m, lab: m.kind == "test" and "'content-type'" in norm(m.ast) and lab is True)]
+    outer = [n for n in cfg.nodes if n.kind == "loopiter" and "base.Filter.__iter__" in norm(n.ast.iter)]
+    if len(flag_sets) == 1 and len(outer) == 1:
+        flag = flag_sets[0].ast.targets[0].id
+        uses = [n for n in cfg.nodes if n.kind == "test" and norm(n.ast) == flag]
+        resets = [n for n in cfg.stmt_nodes() if n.kind == "stmt" and isinstance(n.ast, ast.Assign) and norm(n.ast.targets[0]) == flag
+                  and isinstance(n.ast.value, ast.Constant) and n.ast.value.value is False]
+        for u in uses:
+            par = cfg.reach_backward([u], lambda m: m in resets)
+            r.check("R15.2", outer[0].id not in par, "pragma-flag-per-token@%d" % uses.index(u), "%s:%d" % (REL, u.ast.lineno),
+                    "the flag `%s` (this meta has http-equiv=content-type) can be read without having been reset for the current token: "
+                    "after one pragma every later meta with a content attribute is rewritten to a charset declaration" % flag,
+                    detail={"flag": flag})
+    else:
+        r.idiom("R15.2", False, "pragma-flag-per-token", f.where, "http-equiv flag / token loop not recognised")
     # recognition of existing declarations is as case-insensitive as the reading side (the parser lower-cases the
     # http-equiv value; attribute and element names reach the filter lower-cased for HTML but not for foreign content)
     insens = lambda e: isinstance(e, ast.Call) and isinstance(e.func, ast.Attribute) and e.func.attr in ("lower", "casefold", "translate")  # noqa: E731
@@ -188,6 +226,11 @@ def mutants():
     from ..selftest import TextMutant as T
     S = "serializer.py"
     return [
+        T("flag-hoisted", REL, "        pending = []\n", "        pending = []\n        has_http_equiv_content_type = False\n", None),
+        T("flag-never-reset", REL, "                    # replace charset with actual encoding\n                    has_http_equiv_content_type = False\n",
+          "                    # replace charset with actual encoding\n", "R15.2"),
+        T("found-without-content", REL, "                        if has_http_equiv_content_type and (None, \"content\") in token[\"data\"]:\n                            token[\"data\"][(None, \"content\")] = 'text/html; charset=%s' % self.encoding\n                            meta_found = True",
+          "                        if has_http_equiv_content_type:\n                            if (None, \"content\") in token[\"data\"]:\n                                token[\"data\"][(None, \"content\")] = 'text/html; charset=%s' % self.encoding\n                            meta_found = True", "R15.2"),
         T("always-inject", S, "        if encoding and self.inject_meta_charset:", "        if self.inject_meta_charset:", "R15.1"),
         T("inject-after-sanitize", S, "        if encoding and self.inject_meta_charset:\n            from .filters.inject_meta_charset import Filter\n            treewalker = Filter(treewalker, encoding)\n", "", "R15.1"),
         T("inject-even-if-found", REL, "                    if not meta_found:\n                        yield {\"type\": \"EmptyTag\", \"name\": \"meta\",", "                    if True:\n                        yield {\"type\": \"EmptyTag\", \"name\": \"meta\",", "R15.2"),
